@@ -13,7 +13,7 @@ import c04 as g
 
 os.environ.setdefault("OMP_NUM_THREADS", "1")     # many runs in parallel: one thread each (no oversubscription, no timeouts under load)
 VERIF = g.VERIF
-INPUTS = ("topol.xml", "m.xml", "s.xml", "opt.xml", "traj.gro", "topol_d.xml", "opt_d.xml")
+INPUTS = ("topol.xml", "m.xml", "s.xml", "opt.xml", "traj.gro", "traj.dump", "topol_d.xml", "opt_d.xml")
 
 
 def write_direct(s, d):
@@ -53,15 +53,42 @@ def write_direct(s, d):
         f.write("</cg>\n")
 
 
+def gro_to_constant_box_dump(d):
+    """third family (":d"): the same frames as a LAMMPS dump trajectory whose box is the SAME in every frame (the largest edge per
+    direction over the frames), analysed with a topology that carries no box: every worker's own topology has to receive the box
+    from the frames it is handed"""
+    lines = open(os.path.join(d, "traj.gro")).read().split("\n")
+    frames, k = [], 0
+    while k + 1 < len(lines) and lines[k + 1].strip():
+        n = int(lines[k + 1])
+        atoms = [(float(l[20:28]), float(l[28:36]), float(l[36:44])) for l in lines[k + 2:k + 2 + n]]
+        box = [float(x) for x in lines[k + 2 + n].split()[:3]]
+        frames.append((atoms, box))
+        k += n + 3
+    L = [max(b[i] for (_, b) in frames) for i in range(3)]
+    with open(os.path.join(d, "traj.dump"), "w") as f:
+        for fr, (atoms, _) in enumerate(frames):
+            f.write("ITEM: TIMESTEP\n%d\nITEM: NUMBER OF ATOMS\n%d\nITEM: BOX BOUNDS pp pp pp\n" % (fr, len(atoms)))
+            for i in range(3):
+                f.write("0 %.4f\n" % (L[i] * 10))
+            f.write("ITEM: ATOMS id type x y z\n")
+            for i, x in enumerate(atoms):
+                f.write("%d 1 %.3f %.3f %.3f\n" % (i + 1, x[0] * 10, x[1] * 10, x[2] * 10))
+
+
 def run_nt(exe, s, nt):
     d = tempfile.mkdtemp(prefix="c05e_", dir=os.environ.get("VERIF_TMP", os.path.join(VERIF, ".cache", "tmp")))
     try:
         g.write_inputs(s, d)
+        trj = "traj.gro"
+        if getattr(s, "dumpfam", False):
+            gro_to_constant_box_dump(d)
+            trj = "traj.dump"
         if s.direct:
             write_direct(s, d)
-            cmd = [exe, "--top", "topol_d.xml", "--trj", "traj.gro", "--options", "opt_d.xml", "--nt", str(nt)]
+            cmd = [exe, "--top", "topol_d.xml", "--trj", trj, "--options", "opt_d.xml", "--nt", str(nt)]
         else:
-            cmd = [exe, "--top", "topol.xml", "--trj", "traj.gro", "--cg", "m.xml;s.xml", "--options", "opt.xml", "--nt", str(nt)]
+            cmd = [exe, "--top", "topol.xml", "--trj", trj, "--cg", "m.xml;s.xml", "--options", "opt.xml", "--nt", str(nt)]
         if s.imc and not s.direct:
             cmd.append("--do-imc")
         if s.intra and not s.direct:
@@ -102,7 +129,8 @@ def mk(seed, i, direct=None):
     s = g.gen(rng)
     s.ntk = rng.choice([2, 2, 3, 4, 8])
     s.direct = (i % 3 == 2) if direct is None else direct
-    s.sid = "%d:%d%s" % (seed, i, ":n" if s.direct else ":m")
+    s.dumpfam = (i % 4 == 1) and all(b[0] == "o" for b in s.boxes)
+    s.sid = "%d:%d%s%s" % (seed, i, ":n" if s.direct else ":m", "d" if s.dumpfam else "")
     return s
 
 
